@@ -1512,7 +1512,7 @@ class MasterAxisStatus(SimpleAxisStatus):
 
         :param cmd: the received mode command.
         """
-        cmd_cnt = utils.string_to_int(cmd[4:8])
+        cmd_cnt = utils.string_to_uint(cmd[4:8])
         mode_id = utils.string_to_int(cmd[8:10])
         par_1 = utils.string_to_real(cmd[10:18], 2)
         par_2 = utils.string_to_real(cmd[18:26], 2)
